@@ -13,6 +13,7 @@ ENVELOPE = ('ISA', 'GS', 'ST', 'SE', 'GE', 'IEA', 'TA1')
 ELEMENT_KINDS = ['too-long', 'too-short', 'not-in-code-list', 'wrong-char-class', 'control-char', 'bad-date', 'bad-time',
                  'required-removed', 'not-used-filled', 'extra-element', 'extra-component', 'syntax-note']
 SEGMENT_KINDS = ['unknown-segment', 'required-segment-removed', 'segment-over-max', 'loop-over-max', 'segment-out-of-place']
+MALFORMED_KINDS = ['junk-segment']
 KINDS = ELEMENT_KINDS + SEGMENT_KINDS
 
 
@@ -20,7 +21,11 @@ def clone(doc):
     d = docgen.Doc(doc.entry, doc.root)
     d.icvn = doc.icvn
     for s in doc.segs:
-        g = docgen.GSeg(s.node, [list(x) for x in s.vals], list(s.chain))
+        if isinstance(s, _Fake):
+            g = _Fake(s.id, [list(x) for x in s.vals], s)
+            g.raw_pattern = s.raw_pattern
+        else:
+            g = docgen.GSeg(s.node, [list(x) for x in s.vals], list(s.chain))
         g.tags = set(s.tags)
         d.segs.append(g)
     return d
@@ -167,6 +172,11 @@ def candidates(doc, kind):
         for i, s in enumerate(doc.segs):
             if s.id not in ENVELOPE and s.id != 'HL':
                 out.append((i, None, None))
+    elif kind == 'junk-segment':
+        for i, s in enumerate(doc.segs):
+            if s.id not in ('ISA', 'IEA'):
+                for pat in ('E', 'EE', 'EX', 'XE', 'ESE', 'Z9EAEE', 'zzEA', 'ABCDEA', 'AE'):
+                    out.append((i, pat, None))
     elif kind == 'required-segment-removed':
         for i, s in enumerate(doc.segs):
             if s.id in ENVELOPE or s.node.usage != 'R':
@@ -337,6 +347,12 @@ def inject(doc, kind, loc, seed):
         d.segs.insert(i + 1, _Fake('ZZZ', [['X1'], ['X2']], s))
         exp.update(seg_index=i + 1, seg_id='ZZZ', ele=None, sub=None, codes=['1', '2', '6', '7'], value=None, local=True, level='seg')
         i = i + 1
+    elif kind == 'junk-segment':
+        j = _Fake('', [], s)
+        j.raw_pattern = loc[1]
+        d.segs.insert(i + 1, j)
+        exp.update(seg_index=i + 1, seg_id=None, ele=None, sub=None, codes=['1', '2', '6', '7', '8'], value=None, local=False, level='seg', pattern=loc[1])
+        i = i + 1
     elif kind == 'required-segment-removed':
         del d.segs[i]
         nxt = d.segs[i]
@@ -357,6 +373,8 @@ def inject(doc, kind, loc, seed):
         exp.update(seg_id=None, removed=s.id, ele=None, sub=None, codes=['3'], value=None, local=False, level='seg', next_id=nxt.id)
     elif kind == 'segment-over-max':
         extra = loc[1]
+        if extra < 1:
+            return None
         for k in range(extra):
             g = docgen.GSeg(s.node, [list(x) for x in s.vals], list(s.chain))
             d.segs.insert(i + 1, g)
@@ -376,6 +394,8 @@ def inject(doc, kind, loc, seed):
                 if x is inst[0]:
                     first_new = at
                 at += 1
+        if first_new is None:
+            return None
         i = first_new
         exp.update(ele=None, sub=None, codes=['4'], value=None, local=False, level='seg')
     elif kind == 'segment-out-of-place':
@@ -400,11 +420,12 @@ def _syntax_positions_other(node, t):
 
 class _Fake(docgen.GSeg):
     """a segment that belongs to no map node"""
-    __slots__ = ('_id',)
+    __slots__ = ('_id', 'raw_pattern')
 
     def __init__(self, sid, vals, after):
         docgen.GSeg.__init__(self, after.node, vals, list(after.chain))
         self._id = sid
+        self.raw_pattern = None
 
     @property
     def id(self):
